@@ -296,6 +296,18 @@ def run_case(case, ctx):
         S = built["atoms"]
         S.charges = np.round(rng.uniform(-1, 1, len(S)), 4)
         ortho = bool(S.cell_is_orthorhombic())
+        if case["informat"] == "lmpdat" and rng.integers(2):
+            # a typed input file: two atom types of one element (C_R / C_3 ...), as force-field typed LAMMPS files have them
+            els_ = [str(e) for e in S.atom_type_elements]
+            t = int(rng.integers(len(els_)))
+            members = [i for i in range(len(S)) if int(S.atom_types[i]) == t]
+            if len(members) >= 2:
+                S.atom_type_elements = els_ + [els_[t]]
+                S.atom_type_masses = [float(m) for m in S.atom_type_masses] + [float(S.atom_type_masses[t])]
+                S.atom_type_labels = [str(l) for l in S.atom_type_labels] + [str(S.atom_type_labels[t]) + "_b"]
+                S.atom_types = np.array(S.atom_types)
+                S.atom_types[members[1::2]] = len(els_)
+                st.count("inputs_with_two_atom_types_of_one_element")
         inp = os.path.join(tmp, "in." + case["informat"])
         S.save(inp)
         rep = replcase.make_replacement(rng, pat, ["equal_substitution", "larger_shared", "smaller_shared", "far_reaching", "empty"][int(rng.integers(5))])
@@ -400,6 +412,8 @@ def requirements(stats, tier):
     for x in ("cif->lmpdat", "cif->cif", "lmpdat->lmpdat", "lmpdat->cif", "cml->lmpdat"):
         if x not in io_:
             need.append("format combination %s not observed" % x)
+    if stats.get("inputs_with_two_atom_types_of_one_element") < 5:
+        need.append("typed inputs with two atom types of one element: %d" % stats.get("inputs_with_two_atom_types_of_one_element"))
     if stats.get("framework_element_runs") < 5:
         need.append("--framework-element runs: %d" % stats.get("framework_element_runs"))
     if stats.nseen("docs_example") < 4:
